@@ -256,6 +256,173 @@ def real_worker(case):
     return out
 
 
+def hist_worker(case):
+    """a history on ONE Simulator(use_jacobian=True): parameter updates through every method that forwards to the
+    model, re-initialisations, and calls of whatever the integrator currently holds as its Jacobian"""
+    import logging
+    import warnings
+
+    warnings.filterwarnings("ignore")
+    from mxlpy import Simulator
+
+    content = with_decl(case["content"])
+    try:
+        m = build_model(content)
+        m.get_initial_conditions()
+    except Exception as e:  # noqa: BLE001
+        return {"build": _exc(e)}
+    nv = len(content["vars"])
+    lg = logging.getLogger("mxlpy.simulator")
+    old_level = lg.level
+    lg.setLevel(logging.ERROR)
+    try:
+        try:
+            sim = Simulator(m, use_jacobian=True)
+        except ZeroDivisionError as e:
+            return {"build": _exc(e)}
+        except Exception as e:  # noqa: BLE001
+            return {"init": _exc(e)}
+        out = {"init": {"ok": sim.integrator.jacobian is not None}, "outs": []}
+        for op in case["hist"]:
+            try:
+                if op[0] == "set":
+                    _, k, v, api, arg = op
+                    v = float(Fraction(v))
+                    if api == "update_parameter":
+                        sim.update_parameter(k, v)
+                    elif api == "update_parameters":
+                        sim.update_parameters({k: v})
+                    elif api == "scale_parameter":
+                        sim.scale_parameter(k, float(Fraction(arg)))
+                    elif api == "scale_parameters":
+                        sim.scale_parameters({k: float(Fraction(arg))})
+                    else:
+                        sim.model.update_parameter(k, v)
+                    out["outs"].append(None)
+                elif op[0] == "reinit":
+                    if op[1] == "clear_results":
+                        sim.clear_results()
+                    else:
+                        k0 = content["vars"][0][0]
+                        sim.update_variable(k0, sim.y0[k0])
+                    out["outs"].append(None)
+                else:
+                    jf = sim.integrator.jacobian
+                    t, xs = float(Fraction(op[1])), [float(Fraction(v)) for v in op[2]]
+                    out["outs"].append({"ok": None} if jf is None else {"ok": _mat(jf(t, xs), nv)})
+            except ZeroDivisionError:
+                out["outs"].append("ZeroDivisionError")
+                break
+            except Exception as e:  # noqa: BLE001
+                out["outs"].append(_exc(e))
+                break
+        return out
+    finally:
+        lg.setLevel(old_level)
+
+
+def gen_hist(rng, content, n_ops):
+    """operations on the plain parameters of `content` (values stay small positive dyadics, so that arithmetic is
+    exact and denominators rarely vanish), re-initialisations and Jacobian calls"""
+    cur = {k: Fraction(v["v"]) for k, v in content["pars"] if "v" in v}
+    ia = [k for k, v in content["pars"] if "v" not in v]
+    ops = []
+    calls = 0
+    for i in range(n_ops):
+        r = rng.random()
+        if (r < 0.45 and (cur or ia)) and i < n_ops - 1:
+            if ia and rng.random() < 0.15:
+                # a parameter given by an initial assignment gets a plain value: the value tuple grows
+                k = rng.choice(ia)
+                ia.remove(k)
+                v = Fraction(rng.choice([1, 2, 3]))
+                cur[k] = v
+                ops.append(["set", k, num(v), rng.choice(["update_parameter", "update_parameters", "model"]), None])
+                continue
+            k = rng.choice(sorted(cur))
+            api = rng.choice(["update_parameter", "update_parameters", "scale_parameter", "scale_parameters", "model"])
+            if api.startswith("scale"):
+                f = Fraction(rng.choice([2, 4, Fraction(1, 2), 3, 1]))
+                v = cur[k] * f
+                arg = num(f)
+            else:
+                # now and then back to a value it had before (the closure must not serve the matrix of another value)
+                v = Fraction(rng.choice([1, 2, 3, 4, 5, Fraction(1, 2), cur[k]]))
+                arg = None
+            cur[k] = v
+            ops.append(["set", k, num(v), api, arg])
+        elif r < 0.6 and i < n_ops - 1:
+            ops.append(["reinit", rng.choice(["clear_results", "update_variable"])])
+        else:
+            ops.append(["call", str(rng.choice([0, 1, 2])), [str(rng.choice([1, 2, 3, 5])) for _ in content["vars"]]])
+            calls += 1
+    if not calls:
+        ops.append(["call", "0", ["1" for _ in content["vars"]]])
+    return ops
+
+
+def hist_req(case):
+    return {"op": "c12", "content": wire_content(case["content"]), "points": [],
+            "hist": [op[:3] if op[0] == "set" else op[:1] if op[0] == "reinit" else op for op in case["hist"]]}
+
+
+def judge_hist(ctx, case, R, M):
+    """R = the real Simulator's outputs along the history, M = the Lean state machine run with the generated glue
+    facts, S = per call what a freshly built Simulator on the content of that moment returns (Lean `callJac`)"""
+    sub = {"content": case["content"], "hist": case["hist"]}
+    if "build" in R:
+        ctx.hist["hist_skipped_build"] = ctx.hist.get("hist_skipped_build", 0) + 1
+        return
+    exact = is_poly(case["content"])
+    ncalls = sum(1 for op in case["hist"] if op[0] == "call")
+    ctx.count(sub, f"history-ops{min(len(case['hist']), 9)}-calls{min(ncalls, 5)}-{'jac' if R.get('init', {}).get('ok') else 'nojac'}", True)
+    if "init" in R and "err" in R["init"]:
+        ctx.violation(sub, R["init"], "Simulator(use_jacobian=True) raised instead of falling back")
+        return
+    S_init = should_convert(case["content"]) == "ok"
+    ctx.judge(sub, R["init"]["ok"], S_init, None if M is None else M["hist"]["init"].get("ok"),
+              what="history: a Jacobian is installed iff the model converts")
+    mouts = None if M is None else M["hist"].get("outs", [])
+    if M is not None and M["hist"].get("run") is not None:
+        # `runG` (the whole history at once, what the theorem is stated over) = the step-by-step outputs used below
+        ctx.hist["hist_runG_compared"] = ctx.hist.get("hist_runG_compared", 0) + 1
+        if M["hist"]["run"] != [o.get("m") for o in mouts]:
+            ctx.add_drift(sub, [o.get("m") for o in mouts], M["hist"]["run"], "Lean runG differs from iterated stepG")
+    for i, (op, ro) in enumerate(zip(case["hist"], R["outs"])):
+        mo = None if mouts is None or i >= len(mouts) else mouts[i]
+        kind = op[0] if op[0] != "set" else "set:" + op[3]
+        ctx.hist["hist_op:" + kind] = ctx.hist.get("hist_op:" + kind, 0) + 1
+        if ro == "ZeroDivisionError":
+            ctx.hist["hist_stopped_ZeroDivisionError"] = ctx.hist.get("hist_stopped_ZeroDivisionError", 0) + 1
+            return
+        if isinstance(ro, dict) and "err" in ro:
+            if op[0] == "reinit" and ro["err"][0] == "ZeroDivisionError":
+                return
+            ctx.violation(dict(sub, upto=i), ro, f"history: {op[0]} raised")
+            return
+        if op[0] != "call":
+            continue
+        if mo is None:
+            sv = mv = None
+        else:
+            sv = mo.get("s")
+            mv = mo.get("m", mo)
+        if sv == "skip":
+            ctx.hist["hist_call_skipped_zero_denominator"] = ctx.hist.get("hist_call_skipped_zero_denominator", 0) + 1
+            continue
+        if sv is None:
+            # no driver: R alone says nothing
+            continue
+        s_ = sv.get("ok") if "ok" in sv else sv
+        m_ = mv.get("ok") if isinstance(mv, dict) and "ok" in mv else mv
+        r_ = ro["ok"]
+        ctx.hist["hist_call_judged"] = ctx.hist.get("hist_call_judged", 0) + 1
+        v = ctx.judge(dict(sub, upto=i), _snap(r_, s_, exact) if r_ is not None and s_ is not None else r_, s_, m_,
+                      what="history: the matrix the integrator gets = Jacobian of the model's current content")
+        if v == "violation":
+            return
+
+
 def apply_edit(content, edit):
     """the content after the edit (what M and S are asked about)"""
     c = copy.deepcopy(content)
@@ -394,6 +561,22 @@ def observe(m, content, pts):
     return out
 
 
+_jac_methods = None
+
+
+def jac_methods():
+    """the methods of `Scipy.method`'s Literal (read from the source by the translator) whose scipy solver takes a
+    Jacobian — "every integrator method that uses a Jacobian" """
+    global _jac_methods
+    if _jac_methods is None:
+        import inspect
+
+        from scipy.integrate._ivp.ivp import METHODS
+
+        _jac_methods = [m for m in T.scipy_methods(REPO) if "jac" in inspect.signature(METHODS[m].__init__).parameters]
+    return _jac_methods
+
+
 def traj_worker(case):
     """thorough tier: trajectories with and without the Jacobian, per method"""
     import warnings
@@ -408,7 +591,7 @@ def traj_worker(case):
 
     content = with_decl(case["content"])
     res = {}
-    for meth in ("BDF", "Radau", "LSODA"):
+    for meth in jac_methods():
         row = {}
         for uj in (False, True):
             try:
@@ -944,6 +1127,7 @@ def run(ctx):
             judge_all(ctx, case, R, M)
         if len(ctx.violations) > 20:
             break
+    history_stratum(ctx, rng)
     piecewise_stratum(ctx)
     # trajectories: quick = the two corpus models that convert; thorough = generated ones incl. stiff
     tcases = [dict(c, t_end=2) for c in corpus() if c["tag"] in ("jac-closure", "decl-order")]
@@ -959,6 +1143,51 @@ def run(ctx):
     ctx.extra_cov["trajectory_runs_in_which_the_Jacobian_was_called"] = used
     if used == 0:
         ctx.violation({"trajectories": len(tcases)}, "no trajectory run ever called the Jacobian", "trajectory stratum is vacuous")
+
+
+def history_stratum(ctx, rng):
+    """Simulator histories (state machine of Model/C12Sim.lean, theorem C12_sim_history): fixed histories on the corpus
+    models first (seed-independent), then generated ones"""
+    cases = []
+    fixed = [
+        [["call", "0", None], ["set", None, "7", "update_parameter", None], ["call", "0", None],
+         ["set", None, "ORIG", "update_parameters", None], ["call", "0", None], ["reinit", "clear_results"], ["call", "1", None]],
+        [["set", None, "3", "model", None], ["call", "0", None], ["reinit", "update_variable"],
+         ["set", None, "SCALE2", "scale_parameter", "2"], ["call", "2", None], ["set", None, "SCALE4", "scale_parameters", "1/2"],
+         ["call", "0", None]],
+    ]
+    for c in corpus():
+        plain = [(k, v["v"]) for k, v in c["content"]["pars"] if "v" in v]
+        if not plain:
+            continue
+        k, orig = plain[0]
+        for h in fixed:
+            cur = Fraction(orig)
+            ops = []
+            for op in h:
+                op = list(op)
+                if op[0] == "call":
+                    op[2] = ["2" for _ in c["content"]["vars"]]
+                elif op[0] == "set":
+                    op[1] = k
+                    if op[2] == "ORIG":
+                        cur = Fraction(orig)
+                    elif op[2].startswith("SCALE"):
+                        cur = cur * Fraction(op[4])
+                    else:
+                        cur = Fraction(op[2])
+                    op[2] = num(cur)
+                ops.append(op)
+            cases.append({"content": c["content"], "hist": ops})
+    for i in range(ctx.n(70, 1500)):
+        c = gen_content(rng, rational=(i % 3 != 0), p_odd=0.15)
+        cases.append({"content": c, "hist": gen_hist(rng, c, rng.randint(3, 9))})
+    Rs = pool().map(hist_worker, cases, chunksize=4)
+    Ms = driver.call_batch([hist_req(c) for c in cases]) if ctx.driver_ok else [None] * len(cases)
+    for case, R, M in zip(cases, Rs, Ms):
+        judge_hist(ctx, case, R, M)
+        if len(ctx.violations) > 20:
+            break
 
 
 def piecewise_stratum(ctx):
@@ -1001,6 +1230,13 @@ def piecewise_stratum(ctx):
 
 def replay(ctx, rp):
     case = rp["case"]
+    if "hist" in case:
+        case = {"content": case["content"], "hist": case["hist"]}
+        R = hist_worker(case)
+        M = driver.call_batch([hist_req(case)])[0] if ctx.driver_ok else None
+        print("R =", R, "\nM =", None if M is None else M["hist"])
+        judge_hist(ctx, case, R, M)
+        return
     if "t_end" in case:
         T_ = traj_worker(case)
         print("T =", T_)
